@@ -213,6 +213,18 @@ def topo(rng):
                 place(a, ma, [("allOf", [wrap(rng, hop, lv - 1)])])
         site = wrap(rng, Obj([("$ref", enter(chain_[0], mids[0]))]), rng.randint(0, 2))
         sites.append(site)
+    decoy = None
+    if rng.random() < 0.3:
+        # a decoy: a resource that declares the anchor and always FAILS, applied where its failure is swallowed (anyOf / not / if).
+        # It has left the dynamic scope when the other sites are evaluated; an evaluator that forgets to pop failed frames sees it.
+        decoy = k + 1
+        d = Obj([("$id", res_name(decoy)), ("$defs", Obj([("x", target_def("dyn", decoy))])), rng.choice([("not", Obj()), ("const", "never"), ("type", "null")])])
+        bodies[decoy] = d
+        dref = Obj([("$ref", res_name(decoy))])
+        dsite = rng.choice([Obj([("anyOf", [dref, True])]), Obj([("not", dref)]), Obj([("if", dref), ("then", False)]),
+                            Obj([("oneOf", [dref, Obj()])])])
+        sites.insert(rng.choice([0, 0, len(sites)]), dsite)
+        nsites += 1
     root = bodies[0]
     arr = rng.random() < 0.5
     if arr:
@@ -222,7 +234,7 @@ def topo(rng):
     defs = root.get("$defs")
     docs = []
     g_remote = rng.random() < 0.2
-    for i in range(1, k + 1):
+    for i in range(1, k + 1 + (1 if decoy else 0)):
         if i == k and g_remote:
             docs.append(["http://x.test/dyn/" + res_name(i), bodies[i]])
         else:
